@@ -22,29 +22,17 @@ pub struct Enumerated {
 }
 
 fn i_e_into_structure(id: u64, class: TagClass, inner: i64) -> structure::StructureTag {
-    let mut count = 0u8;
-    let mut rem: i64 = if inner >= 0 { inner } else { -inner };
-    while {
-        count += 1;
-        rem >>= 8;
-        rem > 0
-    } {}
-
-    // Ensure that the most significant bit is always 0, because BER uses signed numbers.
-    // We shift away all but the most significant bit and check that.
-    // See #21
-    if inner > 0 && inner >> ((8 * count) - 1) == 1 {
-        count += 1;
-    }
-
-    let mut count = count as usize;
-    let mut out: Vec<u8> = Vec::with_capacity(count);
+    // Shortest two's-complement form (X.690, 8.3.2): a leading octet is redundant
+    // when it and the top bit of the octet after it are all zeros or all ones.
     let repr = inner.to_be_bytes();
-    if count > repr.len() {
-        out.push(0);
-        count -= 1;
+    let mut skip = 0;
+    while skip < repr.len() - 1
+        && ((repr[skip] == 0x00 && repr[skip + 1] & 0x80 == 0)
+            || (repr[skip] == 0xFF && repr[skip + 1] & 0x80 != 0))
+    {
+        skip += 1;
     }
-    out.extend_from_slice(&repr[repr.len() - count..]);
+    let out = repr[skip..].to_vec();
 
     structure::StructureTag {
         id,
